@@ -39,6 +39,7 @@ func checkC17(c *Ctx, r *Report) {
 			}
 		}
 		n := 0
+		var early, after []*ssa.Call
 		for _, b := range h.Blocks {
 			for _, in := range b.Instrs {
 				call, ok := in.(*ssa.Call)
@@ -83,13 +84,38 @@ func checkC17(c *Ctx, r *Report) {
 				for _, a := range call.Common().Args {
 					walk(a, 0)
 				}
-				if recvBlk == nil || !recvBlk.Dominates(b) {
-					continue // a deadline not related to writing the reply
+				if recvBlk == nil || !recvBlk.Dominates(b) || (recvBlk == b && !before(recvInstr, call)) {
+					early = append(early, call) // set before the assembler ran: judged at the reply write below
+					continue
 				}
+				after = append(after, call)
 				if fresh >= 1 && stale == 0 {
 					r.ok("R17.12", fnID(h), "the write deadline of a reply is computed from time.Now() read after the assembler returned", c.pos(call.Pos()), true)
 				} else {
 					r.fail("R17.12", fnID(h), "the write deadline of a reply is computed from a time taken before the handler ran (a slow handler's reply then fails with an expired deadline)", c.pos(call.Pos()), fmt.Sprintf("clock readings after the assembler call: %d, before: %d", fresh, stale), "stale-write-deadline")
+				}
+			}
+		}
+		// a deadline armed before the assembler ran must have been re-armed before the reply is written
+		if len(early) > 0 && recvBlk != nil {
+			for _, b := range h.Blocks {
+				for _, in := range b.Instrs {
+					w, ok := in.(*ssa.Call)
+					if !ok || !w.Common().IsInvoke() || w.Common().Method.Name() != "Write" || !recvBlk.Dominates(b) || (recvBlk == b && !before(recvInstr, w)) {
+						continue
+					}
+					rearmed := false
+					for _, d := range after {
+						if d.Block().Dominates(b) && (d.Block() != b || before(d, w)) {
+							rearmed = true
+						}
+					}
+					r.instance("R17.12", 1)
+					if rearmed {
+						r.ok("R17.12", fnID(h), "the write deadline armed before the assembler ran is re-armed before the reply is written", c.pos(w.Pos()), true)
+					} else {
+						r.fail("R17.12", fnID(h), "the reply is written under a write deadline armed before the handler ran (a slow handler's reply then fails with an expired deadline)", c.pos(w.Pos()), fmt.Sprintf("deadline set at %s", c.pos(early[0].Pos())), "stale-write-deadline")
+					}
 				}
 			}
 		}
